@@ -181,6 +181,7 @@ struct ExecObs {                            // everything observed about one wra
     Snap before, at_exec, after;
     std::vector<Fault> fired;
     int steps = 0;                          // intercepted calls made by this operation
+    int steps_after_exec = 0, heap_ops_after_exec = 0; // library activity after the real exec returned (failing exec)
     unsigned long self_tid = 0;             // pthread_self() of the caller
     std::string datetime_probe;             // harness-side strftime under the call's environment (see model)
 };
